@@ -20,6 +20,7 @@ HARNESSES = [
     HC('h_light64_8', 8, 'light-call 2-4 on x86-64 (AsmJit only: internal consistency)'),
     Harness('argmove', 'h_argmove_x64_int', unwind=6, bounds='x86-64: destination and source type over i8..u64 (64 pairs), source in any GP register or on the stack, any destination register, SSE/AVX mode', mem_gb=1, timeout=600),
     Harness('argmove', 'h_argmove_x64_fp', unwind=6, bounds='x86-64: destination type float32x1, float64x1, float32x4; source type float32, float64, float32x1, float64x1, float32x4; source in any xmm register or on the stack; SSE/AVX mode; the whole harness lies in the region of known finding C06J (no native twin comparison: the real code evaluates ctz(0), undefined behaviour)', known='C06J', validate_runs=0, mem_gb=1, timeout=600),
+    Harness('argmove', 'h_argmove_x64_fp_full', unwind=6, bounds='as h_argmove_x64_fp, all assertions; claims nothing while C06I or C06J is listed (every input lies in one of the two regions)', mem_gb=1, timeout=600),
     Harness('argmove', 'h_argmove_x64_kf_C06I', unwind=6, bounds='region of known finding C06I (float32 <-> float64 conversion)', known='C06I', validate_runs=0, mem_gb=1, timeout=600),
     HC('h_sysv64_kf_D6', 12, 'region of known finding D6', known='D6'),
     # no native twin comparison: inside the region the real code reads out of bounds (undefined behaviour), the encoded code stops at the UBSan trap
